@@ -146,7 +146,7 @@ fn c01_ssh_2_0_warn() {
 
 //# harness: c18_ssh_2_0_free4
 //# props: C18 C01 C19
-//# tier: quick
+//# tier: thorough
 //# encodes: proto::ssh::repl, proto::ssh::ssh_parse
 //# bounds: identification = "SSH-2.0" (the dispatcher's signature) + 4 arbitrary bytes (version continuation, '-', software, SP, comment, lone CR, CR LF, bare LF, NUL, non-ASCII); log level Off
 //# assumes: empty software names are not judged (the property's grammar does not settle them)
@@ -161,7 +161,7 @@ fn c18_ssh_2_0_free4() {
 
 //# harness: c18_ssh_1_99_free4
 //# props: C18 C01 C19
-//# tier: quick
+//# tier: thorough
 //# encodes: proto::ssh::repl, proto::ssh::ssh_parse
 //# bounds: identification = "SSH-1.99" (the dispatcher's signature) + 4 arbitrary bytes (version continuation, '-', software, SP, comment, lone CR, CR LF, bare LF, NUL, non-ASCII); log level Off
 //# assumes: empty software names are not judged (the property's grammar does not settle them)
@@ -172,4 +172,235 @@ fn c18_ssh_2_0_free4() {
 #[kani::unwind(20)]
 fn c18_ssh_1_99_free4() {
     ssh_banner(b"SSH-1.99", 4, log::LevelFilter::Off)
+}
+
+// ------------------------------------------------------------------------------------------
+// One-byte transition lemmas of the banner parser (cheap, replayable): concrete control state,
+// one arbitrary byte, compared with the transition function of the identification grammar.
+// The "CR seen" state is entered through a concrete CR so that the parser never starts a chunk
+// in it (ssh::repl always parses a whole payload from a fresh state).
+// ------------------------------------------------------------------------------------------
+fn ref_ssh_step(st: usize, prev: usize, b: u8) -> (usize, usize) {
+    match st {
+        SSH_STATE_S1 => (if b == b'S' { SSH_STATE_S2 } else { SSH_STATE_FAIL }, prev),
+        SSH_STATE_S2 => (if b == b'S' { SSH_STATE_H } else { SSH_STATE_FAIL }, prev),
+        SSH_STATE_H => (if b == b'H' { SSH_STATE_DASH } else { SSH_STATE_FAIL }, prev),
+        SSH_STATE_DASH => (if b == b'-' { SSH_STATE_VERSION } else { SSH_STATE_FAIL }, prev),
+        SSH_STATE_VERSION => {
+            if b == b'-' { (SSH_STATE_SOFTWARE, prev) } else if (b >= b'0' && b <= b'9') || b == b'.' { (SSH_STATE_VERSION, prev) } else { (SSH_STATE_FAIL, prev) }
+        }
+        SSH_STATE_SOFTWARE => {
+            if b == b'\r' { (SSH_STATE_LF, SSH_STATE_SOFTWARE) } else if b == b' ' { (SSH_STATE_COMMENT, prev) } else { (SSH_STATE_SOFTWARE, prev) }
+        }
+        SSH_STATE_COMMENT => {
+            if b == b'\r' { (SSH_STATE_LF, SSH_STATE_COMMENT) } else { (SSH_STATE_COMMENT, prev) }
+        }
+        SSH_STATE_LF => {
+            if b == b'\n' {
+                (SSH_STATE_EOB, prev)
+            } else if prev == SSH_STATE_SOFTWARE || prev == SSH_STATE_COMMENT {
+                // the CR was data: the byte is read again in the state the CR came from
+                ref_ssh_step(prev, prev, b)
+            } else {
+                (SSH_STATE_FAIL, prev)
+            }
+        }
+        SSH_STATE_EOB => (SSH_STATE_EOB, prev),
+        _ => (SSH_STATE_FAIL, prev),
+    }
+}
+
+/// via_cr: 0 = step directly from `st`; 1 = first feed a concrete CR from `st` (SOFTWARE or
+/// COMMENT), then the arbitrary byte meets the "CR seen" state
+fn ssh_step(st: usize, via_cr: bool) {
+    let b: u8 = kani::any();
+    let mut p = ProtocolState::new();
+    p.state = st;
+    let (mut rs, mut rp) = (st, SSH_STATE_START);
+    if via_cr {
+        let d = [b'\r', b];
+        let (s1, p1) = ref_ssh_step(rs, rp, b'\r');
+        let (s2, p2) = ref_ssh_step(s1, p1, b);
+        rs = s2;
+        rp = p2;
+        ssh_parse(&mut p, &d);
+    } else {
+        let (s1, p1) = ref_ssh_step(rs, rp, b);
+        rs = s1;
+        rp = p1;
+        ssh_parse(&mut p, &[b]);
+    }
+    assert!(p.state == rs, "C18: SSH banner parser transition differs from the identification grammar");
+    if rs == SSH_STATE_LF {
+        assert!(p.prev_state == rp, "C18: SSH banner parser forgot which field the CR was read in");
+    }
+    kani::cover!(p.state == SSH_STATE_FAIL, "step into FAIL");
+    kani::cover!(p.state != SSH_STATE_FAIL, "step not failing");
+    std::mem::forget(p);
+}
+
+/// concrete identifications through the real responder: exact reply / silence
+fn ssh_concrete() {
+    log::set_max_level(log::LevelFilter::Off);
+    let masscanned = ms_plain([0, 0], MacAddr::new(0, 1, 2, 3, 4, 5));
+    let ci = ClientInfo::new();
+    let ok: [&[u8]; 4] = [b"SSH-2.0-x\r\n", b"SSH-1.99-a b\r\n", b"SSH-2.0-x\r\r\n", b"SSH-2.0-a\rb c\r\n"];
+    let mut k = 0;
+    while k < ok.len() {
+        let r = repl(ok[k], &masscanned, &ci, None);
+        assert!(r.is_some(), "C18: well-formed SSH identification not answered");
+        let v = r.unwrap();
+        let exp = b"SSH-2.0-1\r\n";
+        assert!(v.len() == exp.len() && v[0] == b'S' && v[8] == b'1' && v[9] == b'\r' && v[10] == b'\n', "C18: SSH reply is not exactly SSH-2.0-1 CR LF");
+        k += 1;
+    }
+    let bad: [&[u8]; 4] = [b"SSH-2.0-x\n", b"SSH-2.0-x\r", b"SSH-2.x-y\r\n", b"SSH-2.0-x y"];
+    let mut k = 0;
+    while k < bad.len() {
+        assert!(repl(bad[k], &masscanned, &ci, None).is_none(), "C18: unterminated or malformed SSH identification answered");
+        k += 1;
+    }
+    kani::cover!(true, "concrete identifications handled");
+}
+
+//# harness: c18_ssh_step_s1
+//# props: C18 C01@thorough
+//# tier: thorough
+//# encodes: proto::ssh::ssh_parse
+//# bounds: control state SSH_STATE_S1 (concrete), one arbitrary byte (256 values)
+//# note: the step lemmas give, by induction on the banner length, acceptance = the identification grammar for banners of any length
+//# cover: step into FAIL
+#[kani::proof]
+#[kani::unwind(8)]
+fn c18_ssh_step_s1() {
+    ssh_step(SSH_STATE_S1, false)
+}
+
+//# harness: c18_ssh_step_dash
+//# props: C18 C01@thorough
+//# tier: quick
+//# encodes: proto::ssh::ssh_parse
+//# bounds: control state SSH_STATE_DASH (concrete), one arbitrary byte (256 values)
+//# note: the step lemmas give, by induction on the banner length, acceptance = the identification grammar for banners of any length
+//# cover: step into FAIL
+#[kani::proof]
+#[kani::unwind(8)]
+fn c18_ssh_step_dash() {
+    ssh_step(SSH_STATE_DASH, false)
+}
+
+//# harness: c18_ssh_step_version
+//# props: C18 C01@thorough
+//# tier: quick
+//# encodes: proto::ssh::ssh_parse
+//# bounds: control state SSH_STATE_VERSION (concrete), one arbitrary byte (256 values)
+//# note: the step lemmas give, by induction on the banner length, acceptance = the identification grammar for banners of any length
+//# cover: step into FAIL
+#[kani::proof]
+#[kani::unwind(8)]
+fn c18_ssh_step_version() {
+    ssh_step(SSH_STATE_VERSION, false)
+}
+
+//# harness: c18_ssh_step_software
+//# props: C18 C01@thorough
+//# tier: quick
+//# encodes: proto::ssh::ssh_parse
+//# bounds: control state SSH_STATE_SOFTWARE (concrete), one arbitrary byte (256 values)
+//# note: the step lemmas give, by induction on the banner length, acceptance = the identification grammar for banners of any length
+//# cover: step not failing
+#[kani::proof]
+#[kani::unwind(8)]
+fn c18_ssh_step_software() {
+    ssh_step(SSH_STATE_SOFTWARE, false)
+}
+
+//# harness: c18_ssh_step_comment
+//# props: C18 C01@thorough
+//# tier: quick
+//# encodes: proto::ssh::ssh_parse
+//# bounds: control state SSH_STATE_COMMENT (concrete), one arbitrary byte (256 values)
+//# note: the step lemmas give, by induction on the banner length, acceptance = the identification grammar for banners of any length
+//# cover: step not failing
+#[kani::proof]
+#[kani::unwind(8)]
+fn c18_ssh_step_comment() {
+    ssh_step(SSH_STATE_COMMENT, false)
+}
+
+//# harness: c18_ssh_step_software_cr
+//# props: C18 C01@thorough
+//# tier: quick
+//# encodes: proto::ssh::ssh_parse
+//# bounds: control state SSH_STATE_SOFTWARE (concrete), reached the CR-seen state through a concrete CR, one arbitrary byte (256 values)
+//# note: the step lemmas give, by induction on the banner length, acceptance = the identification grammar for banners of any length
+//# cover: step not failing
+#[kani::proof]
+#[kani::unwind(8)]
+fn c18_ssh_step_software_cr() {
+    ssh_step(SSH_STATE_SOFTWARE, true)
+}
+
+//# harness: c18_ssh_step_comment_cr
+//# props: C18 C01@thorough
+//# tier: quick
+//# encodes: proto::ssh::ssh_parse
+//# bounds: control state SSH_STATE_COMMENT (concrete), reached the CR-seen state through a concrete CR, one arbitrary byte (256 values)
+//# note: the step lemmas give, by induction on the banner length, acceptance = the identification grammar for banners of any length
+//# cover: step not failing
+#[kani::proof]
+#[kani::unwind(8)]
+fn c18_ssh_step_comment_cr() {
+    ssh_step(SSH_STATE_COMMENT, true)
+}
+
+//# harness: c18_ssh_step_eob
+//# props: C18 C01@thorough
+//# tier: thorough
+//# encodes: proto::ssh::ssh_parse
+//# bounds: control state SSH_STATE_EOB (concrete), one arbitrary byte (256 values)
+//# note: the step lemmas give, by induction on the banner length, acceptance = the identification grammar for banners of any length
+//# cover: step not failing
+#[kani::proof]
+#[kani::unwind(8)]
+fn c18_ssh_step_eob() {
+    ssh_step(SSH_STATE_EOB, false)
+}
+
+//# harness: c18_ssh_step_s2
+//# props: C18 C01@thorough
+//# tier: thorough
+//# encodes: proto::ssh::ssh_parse
+//# bounds: control state SSH_STATE_S2 (concrete), one arbitrary byte (256 values)
+//# note: the step lemmas give, by induction on the banner length, acceptance = the identification grammar for banners of any length
+//# cover: step into FAIL
+#[kani::proof]
+#[kani::unwind(8)]
+fn c18_ssh_step_s2() {
+    ssh_step(SSH_STATE_S2, false)
+}
+
+//# harness: c18_ssh_step_h
+//# props: C18 C01@thorough
+//# tier: thorough
+//# encodes: proto::ssh::ssh_parse
+//# bounds: control state SSH_STATE_H (concrete), one arbitrary byte (256 values)
+//# note: the step lemmas give, by induction on the banner length, acceptance = the identification grammar for banners of any length
+//# cover: step into FAIL
+#[kani::proof]
+#[kani::unwind(8)]
+fn c18_ssh_step_h() {
+    ssh_step(SSH_STATE_H, false)
+}
+
+//# harness: c18_ssh_concrete
+//# props: C18 C19
+//# tier: quick
+//# encodes: proto::ssh::repl, ssh_parse
+//# bounds: eight concrete identifications (four well-formed incl. lone CR in software / comment and CR CR LF, four unterminated or malformed) through the real responder; reply compared with "SSH-2.0-1 CR LF"
+//# cover: concrete identifications handled
+#[kani::proof]
+#[kani::unwind(20)]
+fn c18_ssh_concrete() {
+    ssh_concrete()
 }
